@@ -409,7 +409,7 @@ def run(tier, seed):
     out = dict(rule=[], gram=[], sp=[], close=[])
     stats = dict(newrules={}, distinct=set())
     feats = {}
-    n_sp_budget = 40 if tier == "quick" else 2500
+    n_sp_budget = 150 if tier == "quick" else 2500
     for i in range(n_specs):
         k = i % 6
         if k in (0, 1, 2):
